@@ -17,6 +17,12 @@ class Infeasible(Exception):
     """Assumptions of the current path are contradictory."""
 
 
+class ContractViolation(Exception):
+    """raised by a contract harness itself when the code under contract visibly breaks the contract at run time (e.g. a search
+    that does not stop within the bound its own termination argument gives); unlike other exceptions under proxy execution it
+    is a failed obligation on changed source too"""
+
+
 class Unsupported(Exception):
     """Construct outside the verifier's subset; never silently skipped."""
 
